@@ -152,3 +152,21 @@ func BurnedIn(out *BlockOutcome) (*big.Int, int) {
 	scan(out.EndBlock.Events)
 	return total, n
 }
+
+// StakingEventsOf decodes the staking events of one kind from a list of ABCI events, in order; dec is
+// called with the raw attribute value of every match.
+func StakingEventsOf(evs []types.Event, kind string, dec func(raw string)) {
+	for _, e := range evs {
+		if !strings.HasPrefix(e.Type, cmtapi.EventTypeForApp("")) || !strings.HasSuffix(e.Type, "staking") {
+			continue
+		}
+		for _, at := range e.Attributes {
+			if at.Key == kind {
+				dec(at.Value)
+			}
+		}
+	}
+}
+
+// DecodeEvent decodes an event attribute value.
+func DecodeEvent(raw string, into events.TypedAttribute) error { return events.DecodeValue(raw, into) }
